@@ -279,7 +279,19 @@ func one(id int, p pair, dir string) (o obs) {
 // oneInline: up / down where the desired state is what Atlas inspects from a database created with inline UNIQUE constraints (its
 // indexes carry the engine's sqlite_autoindex_<table>_<n> names, as with an SQL schema file or another database as the desired state).
 // Only the round trip is judged: `to` is reported as the state the plan actually produced.
-func oneInline(id int, p pair, dir string) (o obs, applicable bool) {
+func oneInline(id int, p pair, dir string, fromEmpty bool) (o obs, applicable bool) {
+	if fromEmpty {
+		// every table of the desired state is created by the plan (AddTable carrying the engine-named indexes)
+		e := sq.State{}
+		for _, tn := range sq.TableNames {
+			t := sq.Table{Cols: map[string]sq.Col{}, Pk: []string{}, Idx: []sq.Idx{}, Fks: []sq.Fk{}, Chk: []sq.Chk{}}
+			for _, cn := range sq.ColNames {
+				t.Cols[cn] = sq.NoCol()
+			}
+			e[tn] = t
+		}
+		p = pair{From: e, To: p.To}
+	}
 	o = obs{ID: id, From: sq.Canon(p.From), To: sq.Canon(p.From), After: sq.State{}, Undone: sq.State{}, Before: map[string][]row{}, Rows: map[string][]row{}}
 	stmts, inl := ddlVariant(p.To, "inline")
 	if !inl {
@@ -597,7 +609,7 @@ func main() {
 	}
 	// up / down with an inspected inline-UNIQUE database as the desired state (every 3rd applicable pair), appended to the observations
 	ninl := 0
-	{
+	if os.Getenv("VERIF_INLINE") != "" {
 		var idx []int
 		for i := range pairs {
 			if i%3 == 0 {
@@ -616,7 +628,7 @@ func main() {
 			go func() {
 				defer wg3.Done()
 				for k := range ch3 {
-					o, ok := oneInline(1000000+k, pairs[idx[k]], dir)
+					o, ok := oneInline(1000000+k, pairs[idx[k]], dir, k%2 == 1)
 					ir[k] = ires{o, ok}
 				}
 			}()
